@@ -36,6 +36,8 @@ def single_locus(spec):
 
 
 def run(res, replay=None):
+    # structural tie of phasegen/rewards.py: translate the CURRENT source and re-check proofs/GenRewardsEquiv.v against it
+    import translate_step; (res.proof is not None) and translate_step.run(res.proof, pid=res.pid, tie='rewards')
     rng = random.Random(res.seed)
     res.rule = ('twolocus stream: two loci, Kingman, n<=3 (thorough n<=4 for one deme), 1-2 demes, 1-2 epochs, recombination '
                 'rate in {0, 1/4, 1/2, 1, 4, 1024} given inside the LocusConfig, as keyword next to a LocusConfig (empty, or carrying another rate that the keyword overrides, 0 included), or next to loci=2, all numbers of initially unlinked lineages for one deme; tree height (max over '
